@@ -177,9 +177,9 @@ Lemma remove_full t p k : wf_at [] t -> std3 k = false ->
         (forall q k', std3 k' = false ->
            ulookup root' q k' = if path_eqb q p && iface_eqb k' k then None else ulookup t q k') /\
         snd (remove t p k) = (match mgr_of t p None with Some m0 => [SRemoved m0 p [k]] | None => [] end) /\
-        if is_empty (fst (remove_interface k c)) then
+        if destroyable (fst (remove_interface k c)) then
           match p with
-          | [] => fst (remove t p k) = (root', Panic PUnwrap)
+          | [] => fst (remove t p k) = (root', Ok false)
           | _ :: _ =>
               exists root'', wf_at [] root'' /\ fst (remove t p k) = (root'', Ok true) /\
                 forall q k', std3 k' = false ->
@@ -208,7 +208,7 @@ Proof.
       apply path_eqb_eq in E; subst. rewrite Hs. destruct (iface_eqb k' k); [reflexivity|].
       unfold ulookup. rewrite Hc. reflexivity. }
     rewrite Hrm. cbn [fst].
-    destruct (is_empty c') eqn:Ee.
+    destruct (destroyable c') eqn:Ee.
     2:{ split; reflexivity. }
     destruct p as [|x p0]; [split; reflexivity|].
     destruct (rev (x :: p0)) as [|last rparent] eqn:Erev.
@@ -393,28 +393,7 @@ Qed.
 Lemma prefix_eqb p o : path_eqb o p = true -> prefix p o = true.
 Proof. intros H. apply path_eqb_eq in H; subst. apply prefix_refl. Qed.
 
-(* nothing registered strictly below a node whose subtree lists no interface *)
-Lemma subtree_silent_U t p c : wf_at [] t -> get_child t p = Some c -> subtree_has_user c = false ->
-  forall r k, r <> [] -> U t (p ++ r) k = None.
-Proof.
-  intros Hwf Hc Hs r k Hr. unfold U. destruct (is_std k) eqn:Ek; [reflexivity|].
-  unfold ulookup. rewrite get_child_app, Hc.
-  destruct (get_child c r) as [c2|] eqn:Hc2; [|reflexivity].
-  destruct r as [|j r0]; [contradiction|].
-  pose proof (wf_get_child p [] t c Hwf Hc) as Hwc. cbn in Hwc.
-  pose proof (gmo_get_below p c j r0 Hwc) as Hg. unfold entry_of in Hg. rewrite Hc2 in Hg.
-  apply v_get_in in Hg.
-  unfold subtree_has_user in Hs.
-  assert (Hnil : user_ifaces (ifaces c2) = []).
-  { destruct (user_ifaces (ifaces c2)) eqn:E; [reflexivity|]. exfalso.
-    assert (existsb (fun e : path * list (iface * props) => match snd e with [] => false | _ => true end)
-              (get_managed_objects c) = true); [|congruence].
-    apply existsb_exists. eexists. split; [exact Hg | reflexivity]. }
-  pose proof (if_get_user_ifaces (ifaces c2) k) as Hi. rewrite Hnil, Ek in Hi. cbn in Hi.
-  destruct (find_iface k (ifaces c2)); [discriminate | reflexivity].
-Qed.
-
-(* a removal that keeps the node (or panics at the root after removing) *)
+(* a removal that keeps the node (not emptied, or with children, or the root) *)
 Lemma step_rm_keep t vs p k root' :
   J t vs -> (k = OM \/ (is_std k = false /\ mgrs_above t p <= 1)) -> wf_at [] root' ->
   (forall q k', std3 k' = false ->
@@ -453,9 +432,8 @@ Qed.
 (* a removal that deletes the node and its subtree *)
 Lemma step_rm_delete t vs p k c root' root'' :
   J t vs -> get_child t p = Some c -> find_iface k (ifaces c) <> None ->
-  is_empty (fst (remove_interface k c)) = true ->
+  destroyable (fst (remove_interface k c)) = true ->
   (k = OM \/ (is_std k = false /\ mgrs_above t p <= 1)) ->
-  (mgrs_above t p = 0 \/ subtree_has_user c = false) ->
   wf_at [] root'' ->
   (forall q k', std3 k' = false ->
      ulookup root' q k' = if path_eqb q p && iface_eqb k' k then None else ulookup t q k') ->
@@ -463,7 +441,8 @@ Lemma step_rm_delete t vs p k c root' root'' :
   J root'' (observe_step vs (match mgr_of t p None with Some m0 => [SRemoved m0 p [k]] | None => [] end)
                          (answers root'')).
 Proof.
-  intros [Hwf [J2 J3]] Hc Hpres Hempty Hcond Hsub Hwf'' Hup1 Hup2. apply J_step; [exact Hwf''|].
+  intros [Hwf [J2 J3]] Hc Hpres Hdestroy Hcond Hwf'' Hup1 Hup2. apply J_step; [exact Hwf''|].
+  unfold destroyable in Hdestroy. apply andb_true_iff in Hdestroy as [Hempty Hleaf]. apply negb_true_iff in Hleaf.
   intros m Hm o k'.
   assert (Hup : forall q k', std3 k' = false -> ulookup root'' q k' = if prefix p q then None else ulookup t q k').
   { intros q k0 Hk0. rewrite (Hup2 q k0 Hk0). destruct (prefix p q) eqn:E; [reflexivity|].
@@ -486,12 +465,11 @@ Proof.
   rewrite (single_view vs (mgr_of t p None) (fun m0 => SRemoved m0 p [k]) m (fun _ => eq_refl)).
   unfold L. rewrite HU.
   destruct (strict_prefix m p) eqn:Esp.
-  - (* a manager above the deleted node: nothing was registered strictly below p *)
-    assert (Hsil : subtree_has_user c = false).
-    { destruct Hsub as [H0 | H]; [|exact H].
-      pose proof (M0 t p m Esp (answers_ulookup _ _ Hans)). lia. }
+  - (* a manager above the deleted node: the node was a leaf *)
     assert (HF1 : forall r k0, r <> [] -> U t (p ++ r) k0 = None).
-    { intros r k0 Hr. apply (subtree_silent_U t p c Hwf Hc Hsil r k0 Hr). }
+    { intros r k0 Hr. unfold U, ulookup. rewrite get_child_app, Hc.
+      rewrite (get_child_same_children c (fst (remove_interface k c)) r (eq_sym (remove_iface_children k c)) Hr).
+      rewrite (has_children_false_leaf _ r Hleaf Hr). destruct (is_std k0); reflexivity. }
     (* under p, the only triple that existed is (p, k), and only if k is a user interface *)
     assert (Hunder : forall k0, prefix p o = true -> (path_eqb o p && iface_eqb k0 k = false) -> U t o k0 = None).
     { intros k0 Hpo Hne. apply prefix_app in Hpo as [r ->]. destruct r as [|x r].
@@ -558,30 +536,23 @@ Proof.
         apply (step_at_om t vs p id root' n' HJ Eu Hwf' Hget Hup).
   - (* remove *)
     pose proof (remove_full t p (ik kk) Hwf (ik_not_std3 kk)) as Hrm.
+    pose proof (lookup_ulookup t p (ik kk)) as Hlu.
     destruct (ulookup t p (ik kk)) eqn:Eu.
     2:{ destruct Hrm as [root' [Hwf' [Hfst [Hsnd Hsame]]]].
-        destruct (remove t p (ik kk)) as [[t1 x] sg]. cbn [fst snd] in *. inversion Hfst; subst. 
+        destruct (remove t p (ik kk)) as [[t1 x] sg]. cbn [fst snd] in *. inversion Hfst; subst.
         apply (noop_J t root' vs Hwf' Hsame HJ). }
     destruct Hrm as [c [root' [Hc [Hpres [Hwf' [Hup [Hsig Hrest]]]]]]].
-    rewrite Hc in Hflag. destruct (find_iface (ik kk) (ifaces c)) eqn:Ek; [|contradiction].
-    clear Hpres. assert (Hpres : find_iface (ik kk) (ifaces c) <> None) by (rewrite Ek; discriminate).
+    destruct (lookup t p (ik kk)) eqn:El; cbn in Hlu; try discriminate.
     assert (Hcond : ik kk = OM \/ (is_std (ik kk) = false /\ mgrs_above t p <= 1)).
     { destruct kk; cbn [ik not_km andb is_std] in *; try (left; reflexivity);
         (right; split; [reflexivity|]; destruct (Nat.leb 2 (mgrs_above t p)) eqn:E; [discriminate | apply leb_false_le in E; lia]). }
-    assert (Hflag2 : is_empty (fst (remove_interface (ik kk) c)) && negb (is_root p)
-                       && Nat.leb 1 (mgrs_above t p) && subtree_has_user c = false).
-    { destruct (not_km kk && Nat.leb 2 (mgrs_above t p)); [discriminate|].
-      destruct (is_empty (fst (remove_interface (ik kk) c)) && negb (is_root p)
-                  && Nat.leb 1 (mgrs_above t p) && subtree_has_user c); [discriminate | reflexivity]. }
-    destruct (is_empty (fst (remove_interface (ik kk) c))) eqn:Ee.
+    destruct (destroyable (fst (remove_interface (ik kk) c))) eqn:Ee.
     + destruct p as [|x p0].
-      * destruct (remove t [] (ik kk)) as [[t1 r] sg]. cbn [fst snd] in *. inversion Hrest; subst. 
+      * destruct (remove t [] (ik kk)) as [[t1 r] sg]. cbn [fst snd] in *. inversion Hrest; subst.
         apply (step_rm_keep t vs [] (ik kk) root' HJ Hcond Hwf' Hup).
       * destruct Hrest as [root'' [Hwf'' [Hfst Hup2]]].
         destruct (remove t (x :: p0) (ik kk)) as [[t1 r] sg]. cbn [fst snd] in *. inversion Hfst; subst.
-        apply (step_rm_delete t vs (x :: p0) (ik kk) c root' root'' HJ Hc Hpres Ee Hcond); [|exact Hwf'' | exact Hup | exact Hup2].
-        cbn [is_root negb andb] in Hflag2.
-        destruct (Nat.leb 1 (mgrs_above t (x :: p0))) eqn:E; [right; exact Hflag2 | left; apply leb_false_le in E; lia].
+        apply (step_rm_delete t vs (x :: p0) (ik kk) c root' root'' HJ Hc Hpres Ee Hcond Hwf'' Hup Hup2).
     + destruct (remove t p (ik kk)) as [[t1 r] sg]. cbn [fst snd] in *. inversion Hrest; subst.
       apply (step_rm_keep t vs p (ik kk) root' HJ Hcond Hwf' Hup).
 Qed.
@@ -636,13 +607,14 @@ Lemma nested_refuted :
   first_flag25 root0 h_nested = Some NestedManagers.
 Proof. split; [eexists; split; [vm_compute; reflexivity | split; vm_compute; reflexivity] | vm_compute; reflexivity]. Qed.
 
-(* /a/b is gone from the listing, the client still has it *)
-Lemma silent_refuted :
-  (exists lst, listing (fst (after h_silent)) [] = Some lst /\
-     triple lst [sa; sb] I2 = None /\
-     triple (view_of (snd (after h_silent)) []) [sa; sb] I2 = Some []) /\
-  first_flag25 root0 h_silent = Some SubtreeSilent.
-Proof. split; [eexists; split; [vm_compute; reflexivity | split; vm_compute; reflexivity] | vm_compute; reflexivity]. Qed.
+(* repaired by f5fe3276: the node /a keeps its child, nothing disappears silently; the history is
+   outside the known class and the client of / agrees with the listing on /a/b *)
+Lemma silent_repaired :
+  first_flag25 root0 h_silent = None /\
+  exists lst, listing (fst (after h_silent)) [] = Some lst /\
+     triple lst [sa; sb] I2 = Some [] /\
+     triple (view_of (snd (after h_silent)) []) [sa; sb] I2 = Some [].
+Proof. split; [vm_compute; reflexivity|]. eexists; split; [vm_compute; reflexivity | split; vm_compute; reflexivity]. Qed.
 
 Lemma full_statement_false : ~ C25_full_statement.
 Proof.
